@@ -32,6 +32,9 @@ def main(argv):
         if prop == "C17":
             import cachechk
             return cachechk.replay(prop, rp) if rp else cachechk.check(prop, tier)
+        if prop == "C20":
+            import filechk
+            return filechk.replay(prop, rp) if rp else filechk.check(prop, tier)
         if prop == "C08":
             import locks
             return locks.replay(prop, rp) if rp else locks.check(prop, tier)
